@@ -21,7 +21,8 @@ LEVEL = "exploration"
 OBJ_CLASSES = ["Cuboid", "Cylinder", "Sphere", "Tetrahedron", "TriangularMesh", "Triangle", "Circle", "Polyline",
                "Dipole", "Sensor", "Collection", "CustomSource", "CylinderSegment"]
 OBJ_NOTATIONS = ["magic_update", "nested_update", "attr", "assign_dict", "assign_magic_dict", "mixed_update",
-                 "magic_then_dict", "attr_dict", "str_shortcut", "partial_magic", "assign_style_object"]
+                 "magic_then_dict", "attr_dict", "str_shortcut", "partial_magic", "assign_style_object",
+                 "assign_substyle_object"]
 CTOR_NOTATIONS = ["ctor_magic", "ctor_dict", "ctor_mixed"]
 DEF_NOTATIONS = ["fam_update", "style_update_nested", "style_update_magic", "attr", "display_update",
                  "fam_mixed_update", "fam_attr_dict", "fam_assign_dict", "defaults_update_nested",
@@ -371,6 +372,44 @@ class C20Session(Session):
                 others = [x for x in sm.VALID[sm.kind_of(leaf)] if sm.stored(leaf, x) != sm.stored(leaf, v)]
                 if others:
                     tmp.update(**{leaf: own(others[0], leaf)})
+        elif notation == "assign_substyle_object":
+            # a sub-style OBJECT of another pool object - or of the library defaults - is assigned to the sub-style
+            # ("dict or `Path` object"), then the leaves below it are written through update(): the donor must
+            # not follow.  self._donated records what the donor handed over (for the model).
+            import magpylib as magpy
+
+            self._donated = {}
+            for top, sub in nest_items(items).items():
+                if isinstance(sub, dict) and top != "model3d":
+                    donor = None
+                    for cand in self.world.objs:
+                        if cand is not o and type(getattr(cand.style, top, None)) is type(getattr(o.style, top)):
+                            donor = getattr(cand.style, top)
+                            break
+                    if donor is None:
+                        for fam in sm.FAMILIES.get(type(o).__name__, []) + ["base"]:
+                            cand = getattr(getattr(magpy.defaults.display.style, fam), top, None)
+                            if type(cand) is type(getattr(o.style, top)):
+                                donor = cand
+                                break
+                    if donor is not None:
+                        given = {top + "_" + k: sm.norm(v) for k, v in
+                                 donor.as_dict(flatten=True, separator="_").items() if not sm.is_alias(top + "_" + k)}
+                        setattr(o.style, top, donor)
+                        if getattr(o.style, top) is donor:
+                            self.probe("substyle_object_kept_by_reference")
+                        self._donated.update(given)
+                        self.probe("substyle_object_assigned")
+                        if len(items[0][0]) % 2:
+                            # ... then written leaf by leaf through attributes of the (assigned) sub-style
+                            for leaf, v in items:
+                                if leaf.split("_")[0] == top:
+                                    tgt = o.style
+                                    for part in leaf.split("_")[:-1]:
+                                        tgt = getattr(tgt, part)
+                                    setattr(tgt, leaf.split("_")[-1], own(v, leaf))
+                            continue
+                o.style.update({top: sub})
         elif notation == "magic_then_dict":
             o.style.update(**magic_then_dict_kwargs(items))
         elif notation == "attr_dict":
@@ -499,7 +538,10 @@ class C20Session(Session):
             kind = var["kind"]
             if op["op"] == "obj_set":
                 o = self.world[op["o"]]
-                out = self._guard(lambda: self._write_obj(o, items, op["notation"]))
+                # (assign_substyle_object is two calls, the first of them valid: its rejected variant is the
+                #  second call alone)
+                nota = "nested_update" if op["notation"] == "assign_substyle_object" else op["notation"]
+                out = self._guard(lambda: self._write_obj(o, items, nota))
             elif op["op"] == "def_set":
                 out = self._guard(lambda: self._write_default(op["fam"], items, op["notation"]))
             elif op["op"] == "new_obj" and kind == "style_object":
@@ -594,8 +636,12 @@ class C20Session(Session):
         if k == "obj_set":
             i = op["o"] % len(w.objs)
             o = w.objs[i]
+            self._donated = {}
             out = self._guard(lambda: self._write_obj(o, op["items"], op["notation"]))
             if out == "ok":
+                for leaf, v in self._donated.items():
+                    if leaf in M.S[i]:
+                        M.S[i][leaf] = v
                 for leaf, v in op["items"]:
                     prev = M.S[i].get(sm.alias_target(leaf) if sm.is_alias(leaf) else leaf)
                     if prev is not None:
@@ -783,7 +829,8 @@ class C20Session(Session):
                     for d in _descendants(c):
                         j = w.index(d)
                         for leaf, v in op["items"]:
-                            if leaf in M.S[j]:
+                            # (the documented example uses the deprecated alias: magnetization_size=0.5)
+                            if leaf in M.S[j] or (sm.is_alias(leaf) and sm.alias_target(leaf) in M.S[j]):
                                 M.set_obj(j, leaf, v)
         elif k == "show":
             import magpylib as magpy
@@ -1123,7 +1170,7 @@ class Sim:
                                "magnetization_color_north", "size", "arrow_width", "path_marker_symbol",
                                "arrow_size", "line_width", "pixel_size", "pivot", "magnetization_arrow_width",
                                "orientation_size", "description_show", "legend_show", "path_frames",
-                               "magnetization_color_mode", "mesh_grid_show", "sizemode"])
+                               "magnetization_color_mode", "mesh_grid_show", "sizemode", "magnetization_size"])
             op = {"op": "children_styles", "o": rng.choice(colls),
                   "items": [[leaf, rng.choice(sm.VALID[sm.kind_of(leaf)])]]}
             if rng.random() < 0.4:
